@@ -10,7 +10,7 @@ def flow_cfg(n_htlcs=1, store='free_absent', amounts=None, **kw):
     specs = []
     for i, a in enumerate(amounts):
         specs.append(HtlcSpec(i, invoice=0, hash=H, amount=a, forward='amount', total=1006000, cltv_expiry=3000 + i, cltv_rel=1500))
-    cfg = dict(htlcs=specs, invoices=[inv], store_init=store, max_parts=1, pay_outcomes=('complete', 'pending', 'failed', 'failed_warning', 'failed_warning_empty', 'error:210', 'error:none'),
+    cfg = dict(htlcs=specs, invoices=[inv], store_init=store, max_parts=1, pay_outcomes=('complete', 'pending', 'failed', 'failed_warning', 'failed_warning_empty', 'error:210', 'error:205', 'error:none'),
                pending_parts=1, policy=(1000, 5000, 1008), cltv_delta=34, height=100, max_total_parts=2, deliver_in_order=True,
                strict_por=True, rng_free=False)   # a single HTLC never makes two select! branches ready at once: the start index is irrelevant
     cfg.update(kw)
